@@ -356,6 +356,16 @@ fn workload(m: &mut Mon, bits: usize) {
             }
         }
     }
+    // inv_ring lifts its result limb-count-doubling step by step (1, 2, 4, 8, ... correct limbs), so limb counts that
+    // are not a power of two are a memory shape of their own; the interpreter lanes get two odd values at every
+    // width unthinned (seeded change C02-J: a multiplicand prefix slice of 4 limbs over a 3-limb value).
+    if m.is_light() && n >= 1 {
+        for (k, v) in [gen::max(bits), gen::small(1, bits)].into_iter().enumerate() {
+            if m.light_owns(k as u64, "inv_ring") {
+                m.case_always("inv_ring", bits, vec![au(&v)]);
+            }
+        }
+    }
     // Low zero limbs on both operands plus an interior zero limb in one of them (a zero row inside the
     // schoolbook loop while the accumulator window is nearly exhausted).
     if n >= 3 {
